@@ -9,8 +9,8 @@ Model/HostPool.lean (so every macro run IS an event list of the model and the th
     Q f    a new actor performs a request through Do                          (acquire, [enqueue])
     D d    dial number d succeeds            F d   dial number d fails        (dialOk*/dialFail*, …)
     R c    the holder of connection c calls ReleaseConn     C c   … CloseConn (release c / close c)
-    S a k  the server answers the request of actor a: k=0 keep-alive (→ release), k=1 Connection: close (→ close)
-           encoded as [ 'S', a*2+k ]
+    S a k  the server answers the request of actor a: k=0 keep-alive (→ release), k=1 Connection: close (→ close),
+           k=2 a body larger than MaxResponseBodySize (→ close), k=3 cut inside the body (→ close); [ 'S', a*4+k ]
     T      virtual time passes the short timeout: every parked short waiter takes its timer branch
            (waiterTimeout, cancel)
     K      virtual time passes MaxIdleConnDuration: T, then the cleaner closes every idle connection
@@ -178,10 +178,14 @@ def hpOp (d : HpD) (code : Char) (n : Nat) : Option HpD :=
   | 'C' => (hpStep d (.close n)).map fun d1 =>
       match hpHolder d n with | some a => hpSetActor d1 a .fin | none => d1
   | 'S' =>
-    let a := n / 2
+    -- how the server answers the request of actor a = n/4: 0 keep-alive (ReleaseConn), 1 Connection: close (CloseConn),
+    -- 2 a body larger than MaxResponseBodySize (ErrBodyTooLarge: CloseConn), 3 cut inside the body (read error: CloseConn)
+    let a := n / 4
+    let k := n % 4
     match d.actors[a]? with
     | some ⟨true, _, .holds c⟩ =>
-      (hpStep d (if n % 2 == 0 then .release c else .close c)).map fun d1 => hpRet (hpSetActor d1 a .fin) a "ok"
+      (hpStep d (if k == 0 then .release c else .close c)).map fun d1 =>
+        hpRet (hpSetActor d1 a .fin) a (if k == 2 then "toolarge" else if k == 3 then "err" else "ok")
     | _ => none
   | 'T' => hpTimeouts d
   | 'K' => (hpTimeouts d).bind fun d1 => (hpSettle 200 d1).bind hpCloseIdle
